@@ -103,6 +103,18 @@ theorem indexes_and_keys_from_scripts (g : Globals) (hg : g.dialect = .mysql) (r
   obtain ⟨td, h1, h2, h3, _, _, h6, h7⟩ := elems_end_to_end g hg rc old new dbO dbN ho hn heo hen d hd t tbO tbN hfo hfn
   exact ⟨td, h1, h2, h3, h6, h7⟩
 
+/-- table clause of C02: the CREATE TABLE / DROP TABLE statements of the printed down migration drop the tables only the
+    new schema has and re-create the tables only the old schema has: the new set of tables becomes the old one -/
+theorem tables_from_scripts (g : Globals) (hg : g.dialect = .mysql) (rc : Bool) (old new : List Stmt) (dbO dbN : DB)
+    (ho : old.all Stmt.elemSafe = true) (hn : new.all Stmt.elemSafe = true)
+    (heo : execAll rc [] old = some dbO) (hen : execAll rc [] new = some dbN)
+    (hdef : ∀ tb ∈ dbO ++ dbN, tb.name ≠ Migration.defaultMigrationTable) :
+    ∃ d outD, loadAndDiff g old new = .ok d ∧ d.migrationDown g = .ok (d, outD) ∧
+      outD.flatten.filterMap tblStmt = Abs.Idx.emitDownKeep (dbN.map (·.name)) (dbO.map (·.name)) ∧
+      ∃ R, Abs.Idx.execAll (dbN.map (·.name)) (outD.flatten.filterMap tblStmt) = some R ∧ R.Perm (dbO.map (·.name)) := by
+  obtain ⟨d, _, outD, h1, _, h2, _, _, h3, h4⟩ := tables_end_to_end g hg rc old new dbO dbN ho hn heo hen hdef
+  exact ⟨d, outD, h1, h2, h3, h4⟩
+
 /-- **down undoes up**, index and foreign-key lists: executing the printed up statements and then the printed down
     statements on the reference engine's old lists is well-formed at every step and ends in the old lists up to order -/
 theorem indexes_and_keys_up_then_down (g : Globals) (hg : g.dialect = .mysql) (rc : Bool)
